@@ -8,8 +8,8 @@ CONSTANTS
   FD = FALSE
   MaxAge = 2
   QuietTicks = TRUE
-  JoinShortcut = FALSE
+  JoinShortcut = TRUE
   BumpAdvancesVersion = TRUE
   NodeRank <- Rank
-INVARIANTS ConvergedMembers ConvergedIncarnations ConvergedExact
+INVARIANTS ConvergedMembers ConvergedIncarnations
 CHECK_DEADLOCK FALSE
